@@ -3575,4 +3575,239 @@ theorem reachable_invS {c : Cfg} (hwf : c.WF2) {s : State} (h : Reachable c s) :
       step_invS c hwf s s' a hh.2.1 hh.2.2 hs⟩)
     run _ _ ⟨init_invA c, init_invE c, init_invS c hwf⟩ hr
 
+/-- designated work exists only while a Gc goal is current -/
+def InvD (c : Cfg) (s : State) : Prop := ∀ x, x < c.n → s.desig x ≠ [] → s.current = some .gc
+
+theorem step_other_D (c : Cfg) (s s' : State) (a : Act) (hs : step c s a = some s') :
+    (∃ w tag, a = .park w tag) ∨ (∃ w, a = .surrender w) ∨ (∃ w x tag, a = .pushDesig w x tag) ∨
+    (∃ w p, a = .popDesig w p) ∨ (s'.desig = s.desig ∧ s'.current = s.current) := by
+  cases a
+  case park w tag => exact Or.inl ⟨w, tag, rfl⟩
+  case surrender w => exact Or.inr (Or.inl ⟨w, rfl⟩)
+  case pushDesig w x tag => exact Or.inr (Or.inr (Or.inl ⟨w, x, tag, rfl⟩))
+  case popDesig w p => exact Or.inr (Or.inr (Or.inr (Or.inl ⟨w, p, rfl⟩)))
+  case wake w =>
+    right; right; right; right
+    simp only [step] at hs
+    split at hs
+    · injection hs with hs; subst hs
+      obtain ⟨p, _, he⟩ := afterUnpark_pc { s with parked := s.parked - 1 } w
+      rw [he]; exact ⟨rfl, rfl⟩
+    · cases hs
+  case makeRequest g x =>
+    right; right; right; right
+    simp only [step] at hs
+    have hc : (consumePending s g).desig = s.desig ∧ (consumePending s g).current = s.current := by
+      unfold consumePending; split <;> exact ⟨rfl, rfl⟩
+    split at hs
+    · cases hs
+    · split at hs
+      · split at hs
+        · injection hs with hs; subst hs; exact hc
+        · cases hs
+      · rw [notifyOne_same hs]; cases g <;> exact hc
+  case bucketNotifyOne w b0 x =>
+    right; right; right; right
+    simp only [step] at hs
+    split at hs
+    · rw [notifyOne_same hs]; exact ⟨rfl, rfl⟩
+    · cases hs
+  case mutNotifyOne b0 x =>
+    right; right; right; right
+    simp only [step] at hs
+    split at hs
+    · rw [notifyOne_same hs]; exact ⟨rfl, rfl⟩
+    · cases hs
+  all_goals
+    right; right; right; right
+    simp only [step] at hs
+    repeat' (split at hs)
+    all_goals first
+      | (injection hs with hs; subst hs; exact ⟨rfl, rfl⟩)
+      | cases hs
+
+theorem hasDesignated_false {c : Cfg} {s : State} (h : hasDesignated c s = false) (x : Nat) (hx : x < c.n) : s.desig x = [] := by
+  unfold hasDesignated at h
+  have := List.any_eq_false.mp h x (List.mem_range.mpr hx)
+  simpa using this
+
+/-- if `on_last_parked` changes the current goal away from Gc, no designated work is left -/
+theorem onLastParked_desig (c : Cfg) (s s' : State) (tag : Nat) (r : LPR) (h : onLastParked c s tag = some (s', r))
+    (hd : InvD c s) : InvD c s' := by
+  have f := frame_onLastParked c _ _ _ _ h
+  intro x hx hne
+  rw [f.desig] at hne
+  have hg := hd x hx hne
+  -- a Gc goal is current on entry and work is designated: the first branch returns `WakeAll` unchanged
+  unfold onLastParked at h
+  split at h
+  · rename_i hn; rw [hn] at hg; cases hg
+  · split at h
+    · cases h
+    · split at h
+      · cases h
+      · split at h
+        · injection h with h; injection h with h1 _; subst h1; exact hg
+        · rename_i hnd
+          exfalso
+          have : hasDesignated c s = false := by simpa using hnd
+          exact hne (hasDesignated_false this x hx)
+  · rename_i g hng hs; rw [hs] at hg; cases hg; exact absurd rfl hng
+
+theorem step_invD (c : Cfg) (s s' : State) (a : Act) (hE : InvE c s) (h : InvD c s) (hs : step c s a = some s') : InvD c s' := by
+  rcases step_other_D c s s' a hs with ⟨w, tag, rfl⟩ | ⟨w, rfl⟩ | ⟨w, x, tag, rfl⟩ | ⟨w, p, rfl⟩ | ⟨e1, e2⟩
+  · obtain ⟨_, _, _, hcase⟩ := step_park_cases hs
+    rcases hcase with ⟨_, rfl⟩ | ⟨_, s1, r, hl, he⟩
+    · exact h
+    · have := onLastParked_desig c _ s1 tag r hl (fun x hx hne => h x hx hne)
+      rw [he]; exact this
+  · simp only [step] at hs
+    split at hs
+    · split at hs
+      · rename_i hg
+        have hnd : ∀ x, x < c.n → s.desig x = [] := by
+          intro x hx
+          cases hd : s.desig x with
+          | nil => rfl
+          | cons p l =>
+            exfalso
+            obtain ⟨g, hg1, hg2⟩ := hE.exited w hg.1 hg.2
+            rw [h x hx (by rw [hd]; simp)] at hg1; cases hg1; cases hg2
+        split at hs <;> (injection hs with hs; subst hs) <;> (intro x hx hne; exact absurd (hnd x hx) hne)
+      · cases hs
+    · cases hs
+  · simp only [step] at hs
+    split at hs
+    · rename_i hg; injection hs with hs; subst hs
+      intro y _ _; exact hg.2.2.2
+    · cases hs
+  · simp only [step] at hs
+    split at hs
+    · split at hs
+      · rename_i hg; injection hs with hs; subst hs
+        intro y hy hne
+        apply h y hy
+        simp only [setPc, setDesig] at hne
+        split at hne
+        · rename_i e; subst e
+          intro e2; rw [e2] at hne; simp [removeP] at hne
+        · exact hne
+      · cases hs
+    · cases hs
+  · intro x hx hne; rw [e2]; exact h x hx (by rw [← e1]; exact hne)
+
+theorem init_invD (c : Cfg) : InvD c (init c) := fun x _ hne => absurd rfl hne
+
+theorem reachable_invD {c : Cfg} (hn : 0 < c.n) {s : State} (h : Reachable c s) : InvD c s := by
+  obtain ⟨run, hr⟩ := h
+  exact (exec_some_induct c (fun s => (InvA c s ∧ InvE c s) ∧ InvD c s)
+    (fun s s' a hh hs => ⟨⟨step_invA c s s' a hh.1.1 hs, step_invE c hn s s' a hh.1.1 hh.1.2 hs⟩,
+      step_invD c s s' a hh.1.2 hh.2 hs⟩)
+    run _ _ ⟨⟨init_invA c, init_invE c⟩, init_invD c⟩ hr).2
+
+
+theorem respond_sentinel (c : Cfg) (s s' : State) (tag : Nat) (r : LPR) (h : respond c s tag = some (s', r)) (k : Nat) :
+    (s'.bkt k).sentinel = (s.bkt k).sentinel := by
+  unfold respond at h
+  split at h
+  · cases h
+  · split at h
+    · injection h with h; injection h with h1 _; subst h1
+      simp only [addScheduleCollection, emit, pushBkt, setBkt, bump]
+      split
+      · rename_i e; subst e; rfl
+      · rfl
+    · split at h
+      · injection h with h; injection h with h1 _; subst h1; rfl
+      · split at h
+        · injection h with h; injection h with h1 _; subst h1; rfl
+        · injection h with h; injection h with h1 _; subst h1; rfl
+
+/-- a sentinel leaves its slot inside `on_last_parked` only on the Gc path, after the last parked
+worker has seen every open bucket empty and no designated work -/
+theorem onLastParked_sentinel (c : Cfg) (s s' : State) (tag : Nat) (r : LPR) (h : onLastParked c s tag = some (s', r))
+    (b : Nat) (hne : (s'.bkt b).sentinel ≠ (s.bkt b).sentinel) :
+    s.current = some .gc ∧ allOpenEmpty c s = true ∧ hasDesignated c s = false := by
+  unfold onLastParked at h
+  split at h
+  · exact absurd (respond_sentinel c _ _ _ _ h b) hne
+  · rename_i hcur
+    split at h
+    · cases h
+    · rename_i hao
+      split at h
+      · cases h
+      · rename_i hao
+        split at h
+        · injection h with h; injection h with h1 _; subst h1; exact absurd rfl hne
+        · rename_i hnd
+          exact ⟨hcur, by simpa using hao, by simpa using hnd⟩
+  · cases h
+
+/-- actions other than `park` never remove a sentinel; `setSentinel` fills an empty slot -/
+theorem step_other_sentinel (c : Cfg) (s s' : State) (a : Act) (hs : step c s a = some s') :
+    (∃ w tag, a = .park w tag) ∨ ∀ b, (s'.bkt b).sentinel = (s.bkt b).sentinel ∨ (s.bkt b).sentinel = none := by
+  cases a
+  case park w tag => exact Or.inl ⟨w, tag, rfl⟩
+  case wake w =>
+    right
+    simp only [step] at hs
+    split at hs
+    · injection hs with hs; subst hs
+      obtain ⟨p, _, he⟩ := afterUnpark_pc { s with parked := s.parked - 1 } w
+      rw [he]; exact fun _ => Or.inl rfl
+    · cases hs
+  case setSentinel w b0 tag =>
+    right
+    simp only [step] at hs
+    split at hs
+    · rename_i hg; injection hs with hs; subst hs
+      intro b
+      simp only [setBkt, bump]
+      split
+      · rename_i e; subst e; exact Or.inr hg.2.2.2
+      · exact Or.inl rfl
+    · cases hs
+  case makeRequest g x =>
+    right
+    simp only [step] at hs
+    have hc : (consumePending s g).bkt = s.bkt := by unfold consumePending; split <;> rfl
+    split at hs
+    · cases hs
+    · split at hs
+      · split at hs
+        · injection hs with hs; subst hs; intro b; rw [hc]; exact Or.inl rfl
+        · cases hs
+      · have e : (setRequested (consumePending s g) g true).bkt = s.bkt := by cases g <;> exact hc
+        rw [notifyOne_same hs]; intro b; left
+        show ((setRequested (consumePending s g) g true).bkt b).sentinel = _
+        rw [e]
+  case bucketNotifyOne w b0 x =>
+    right
+    simp only [step] at hs
+    split at hs
+    · rw [notifyOne_same hs]; exact fun _ => Or.inl rfl
+    · cases hs
+  case mutNotifyOne b0 x =>
+    right
+    simp only [step] at hs
+    split at hs
+    · rw [notifyOne_same hs]; exact fun _ => Or.inl rfl
+    · cases hs
+  all_goals
+    right
+    simp only [step] at hs
+    repeat' (split at hs)
+    all_goals first
+      | (injection hs with hs; subst hs
+         intro b; left
+         first
+          | rfl
+          | (simp only [setPc, setBuf, setBkt, pushBkt, bump]
+             split
+             · rename_i e; subst e; rfl
+             · rfl))
+      | cases hs
+
+
 end Mmtk.Sched
